@@ -40,6 +40,7 @@ def main():
         out.write("@@" + json.dumps(ev) + "\n")
         out.flush()
 
+    serials = [0]
     info = porc.cachable_tensor_method.cache_info()
     emit({"ev": "Meta", "proc": proc, "maxsize": info.maxsize if info.maxsize is not None else 1000000,
           "hashseed": os.environ.get("PYTHONHASHSEED")})
@@ -89,7 +90,12 @@ def main():
                 emit({"ev": "LookupFailed", "proc": proc, "key": pb["key"], "exc": type(e).__name__})
                 continue
             hit = porc.cachable_tensor_method.cache_info().hits > before
-            emit({"ev": "Lookup", "proc": proc, "key": pb["key"], "kernel": id(tm), "hit": hit})
+            # identity of the kernel object: a serial number attached at first sight (id() is reused after eviction)
+            serial = getattr(tm, "_vf_serial", None)
+            if serial is None:
+                serials[0] += 1
+                serial = tm._vf_serial = serials[0]
+            emit({"ev": "Lookup", "proc": proc, "key": pb["key"], "rawkey": pb.get("rawkey", pb["key"]), "kernel": serial, "hit": hit})
         elif act == "clear":
             porc.cachable_tensor_method.cache_clear()
             emit({"ev": "CacheClear", "proc": proc})
